@@ -2,7 +2,7 @@ SPEC = {
     "id": "C27",
     "coq_props": ["Properties/C27.v", "Corr/C27.v"],
     "module": "MS.Properties.C27",
-    "theorems": ["C27_guarded", "C27_guarded_msgpack", "C27_names_rejected", "C27_refuted", "C27_refuted_types", "C27_refuted_key"],
+    "theorems": ["C27_guarded", "C27_same_shapes_roundtrip", "C27_mixed_rejected", "C27_guarded_msgpack", "C27_names_rejected", "C27_refuted_key"],
     "corr_require": "Require Import MS.Corr.C27.",
     "agrees": "C27.agrees",
     "in_domain": "C27.in_domain",
@@ -13,7 +13,7 @@ SPEC = {
     "rule": "see harness/props/c27.go: 0-4 buckets (0-5 thorough) over a base shape of 1-5 (1-6) columns of the 11 wire types, 1-5 rows (1-50 thorough; string16 columns kept rare in the quick tier), "
             "45% of the cases unperturbed; otherwise per bucket 12% zero rows, 9% type changed, 4% name changed, 3% column count changed, "
             "3% ragged, ~8% non-canonical key, 3% duplicate key, 3% bool column; distinct = distinct input; non-trivial = inside the "
-            "theorem's guard with >=2 buckets and >=2 columns",
+            "theorem's domain, one shared shape, >=2 buckets and >=2 columns",
     "trusted_base": [
         "Coq 8.16.1 kernel + vm_compute (no native_compute); axioms: none (Closed under the global context)",
         "msgpack is outside the model: C27_guarded quantifies over every structure equal to the encoder's output up to the order of the "
@@ -32,12 +32,12 @@ SPEC = {
         "Go slice expressions are modelled with len, not cap, as the bound (decoded msgpack byte slices have cap == len)",
     ],
     "level": "proof",
-    "level_text": "Coq theorem C27_guarded: for EVERY non-empty list of buckets with distinct canonical keys sharing one shape over the wire "
-                  "types with >=1 row each, in every fold order and for every order in which msgpack returns the two maps, the dataset is "
-                  "built and both ToColumnSeriesMap decoders return exactly the input buckets (names, order, types, bit patterns). "
-                  "C27_refuted / C27_refuted_types / C27_refuted_key exhibit the three defect classes outside the guard (zero-row bucket "
-                  "vanishes; same names with different types are concatenated and decoded under the first bucket's types; keys with more "
-                  "than one colon or without category change). Model tied by translation of the type table and differential in-Coq evaluation.",
+    "level_text": "Coq theorem C27_guarded (code after the fixes 721c515, 0e33ed2): for EVERY non-empty list of buckets with distinct canonical keys, "
+                  "each a well-formed series over the wire types with ANY row count including zero and ANY mix of shapes, in every fold order and "
+                  "for every order in which msgpack returns the two maps: the conversion is refused with an error (exactly when the shapes differ: "
+                  "C27_mixed_rejected) or the dataset is built and both ToColumnSeriesMap decoders return exactly the input buckets (names, order, "
+                  "types, bit patterns) (C27_same_shapes_roundtrip). C27_refuted_key exhibits the remaining defect class (keys with more than one "
+                  "colon or without category change). Model tied by translation of the type table and differential in-Coq evaluation.",
     "level_note": "No axioms. Trusted: Coq kernel/VM, gen translator, harness, msgpack (real one in the harness, abstract in the theorem). "
                   "Modelled not verified: utils/io/numpy.go, keytypes.go NewTimeBucketKey(FromString), columnseries.go Len/AddColumnSeries, "
                   "frontend/query.go:69-89 and :231-251.",
